@@ -259,7 +259,7 @@ def run(chk, R, tier, seed):
         chk.require(c)
     for c in FAULT_CLASSES:
         chk.require("rejected|" + c)
-    n = 300 if tier == "quick" else 10000
+    n = 500 if tier == "quick" else 10000
     done = 0
     while done < n:
         m = min(n - done, 2000)
